@@ -1,6 +1,7 @@
 package dragonboat
 
-//vcheck:bounds C08 node: one replica with a concurrent in-memory or an on-disk state machine model behind the real rsm.StateMachine, the real snapshotter / SSEnv / snapshot writer over the real lni/vfs in-memory FS, the real logdb.LogReader; 8..10 applied entries, then one real node.doSave (periodic, or user requested with a symbolic compaction overhead / compaction index override, or exported) during which 0..3 more entries are applied (concurrent state machines keep applying while a snapshot is written), then the real node.removeLog; CompactionOverhead 2
+//vcheck:tags noasm
+//vcheck:bounds C08 node: snapshot files written without compression or with Snappy stream compression (golang/snappy's pure-Go encoder/decoder, build tag noasm, stands in for the amd64 assembly of the production build); one replica with a concurrent in-memory or an on-disk state machine model behind the real rsm.StateMachine, the real snapshotter / SSEnv / snapshot writer over the real lni/vfs in-memory FS, the real logdb.LogReader; 8..10 applied entries, then one real node.doSave (periodic, or user requested with a symbolic compaction overhead / compaction index override, or exported) during which 0..3 more entries are applied (concurrent state machines keep applying while a snapshot is written), then the real node.removeLog; CompactionOverhead 2
 //vcheck:stub C08 node: log store = harness ILogDB holding entry terms, the snapshot record and the RemoveEntriesTo watermark; user state machine = counter of applied entries whose snapshot is the count captured by PrepareSnapshot
 
 import (
@@ -135,7 +136,7 @@ func vApply(n *node, from, to uint64) {
 // snapshot is still in the log afterwards, the recorded snapshot is labelled
 // with the index of the state it captured, and a restarted replica (snapshot +
 // remaining entries) reaches the state of the running one.
-//vcheck: reach=periodic,user-overhead,user-index,exported,applied-during-save,compacted,restart-equal,done workers=16 forbid="."
+//vcheck: reach=compressed,periodic,user-overhead,user-index,exported,applied-during-save,compacted,restart-equal,done workers=16 forbid="."
 func VHarness_C08_NodeSaveCompaction() {
 	mem := gvfs.NewStrictMem()
 	var fs gvfs.FS = vNameFixFS{mem}
@@ -146,6 +147,10 @@ func VHarness_C08_NodeSaveCompaction() {
 	ssr := newSnapshotter(1, 1, vSSRootFn, store, lr, fs)
 	lr.SetCompactor(ssr)
 	cfg := config.Config{ShardID: 1, ReplicaID: 1, CompactionOverhead: 2, DisableAutoCompactions: true}
+	if vBool("snappy") {
+		cfg.SnapshotCompressionType = config.Snappy
+		vReach("compressed")
+	}
 	n := &node{shardID: 1, replicaID: 1, config: cfg, snapshotter: ssr, logReader: lr, logdb: store,
 		sm: rsm.NewStateMachine(usm, ssr, cfg, vRsmNode{}, fs), sysEvents: newSysEventListener(nil, nil)}
 	ssC := make(chan rsm.SSRequest, 1)
